@@ -80,5 +80,22 @@ func VxC01() {
 		vxAssert(x1 == x2 && y1 == y2, "named results modified by defer differ when compiled as XGo")
 	case 15:
 		vxRun2(func() int { return X_Interfaces(a, b) }, func() int { return R_Interfaces(a, b) })
+	case 16:
+		vxRun2(func() int { return X_Switch2(a) }, func() int { return R_Switch2(a) })
+	case 17:
+		s := vxString(vxConcrete(vxIntRange(0, 2)))
+		vxRun2(func() int { return X_Loops(n+2, s) }, func() int { return R_Loops(n+2, s) })
+	case 18:
+		vxRun2(func() int { return X_IfChain(a, b) }, func() int { return R_IfChain(a, b) })
+	case 19:
+		vxRun2(func() int { return X_Structs(a, b) }, func() int { return R_Structs(a, b) })
+	case 20:
+		vxRun2(func() int { return X_Consts(a) }, func() int { return R_Consts(a) })
+	case 21:
+		if vxParam("KF_INITORDER") == 1 {
+			vxReach("init-order")
+			return // open known finding C01-package-var-init-order
+		}
+		vxAssert(X_InitOrder() == R_InitOrder(), "package-level variables are initialised in a different order when compiled as XGo")
 	}
 }
